@@ -218,6 +218,7 @@ pub fn run(ctx: &Ctx) -> Report {
         }
     });
     rep.merge(r);
+    rep.merge(super::mega::run(ctx, "C02", 1500, 60000));
     if ctx.strict() {
         for k in ["expect_on_query", "expect_on_prepare", "expect_on_init", "expect_on_execute", "expect_on_close", "expect_builtin_answer", "expect_quit", "expect_invalid_utf8_rejection"] {
             rep.require(k, 1);
